@@ -6,6 +6,7 @@ import mir as M
 import rulelib as L
 import symrules as SR
 import sym as SY
+import c19model as CM
 
 CRATES = ["identity_core"]
 OS = "identity_core::common::ordered_set::OrderedSet"
@@ -55,7 +56,7 @@ def vec_mutations(body):
 
 
 def run(F, R, tier):
-    R.undecided += ["order/content equality with an abstract list model over whole operation histories (the rules decide the per-operation shape: guard, position, and which Vec primitive is used)",
+    R.undecided += ["agreement with the list model for sets larger than the evaluation bound (4 elements quick, 5 thorough): each operation is decided on every set up to the bound in every key-equality world, and histories compose from single operations because the invariant (pairwise distinct keys) is re-established by each",
                     "KeyComparable implementations of element types"]
     # ------------------------------------------------------------------ R1 who writes the inner Vec, and how
     r1 = R.rule("C19-R1", "T1", "the inner Vec of OrderedSet is mutated only by append/prepend/change/remove/clear (+3 reviewed *_mut accessors), each using only its allowed Vec primitive")
@@ -76,211 +77,41 @@ def run(F, R, tier):
         seen.add(base)
         if F.derived_trait_of(base):
             continue
-        allowed = ALLOWED_MUT.get(base)
-        if allowed is None:
-            r1.fail((base, "mutates-inner-vec"), "%s takes a mutable reference to the inner Vec of OrderedSet but is not one of the reviewed mutators" % L.short(base))
+        if base in ALLOWED_MUT:
             continue
-        extra = names - allowed
-        r1.require(not extra, (base, "vec-primitive", ",".join(sorted(extra))), "%s mutates the inner Vec with %s; allowed for this method: %s (order/uniqueness argument depends on it)" % (L.short(base), sorted(extra), sorted(allowed)),
-                   muts[0][2]["sp"] if muts else None)
-    for k in ("append", "prepend", "change", "remove", "clear"):
-        r1.require(OS + "::" + k in seen, (OS + "::" + k, "ANCHOR"), "mutator OrderedSet::%s not found or does not touch the inner Vec" % k)
+        serves = L.private_helper_of(F, base, set(ALLOWED_MUT))
+        if serves:
+            r1.exception(base, "checked", "private helper reachable only from %s; its effect is decided with them by C19-R2" % sorted(L.short(x) for x in serves))
+            continue
+        r1.fail((base, "mutates-inner-vec"), "%s takes a mutable reference to the inner Vec of OrderedSet but is not one of the reviewed mutators" % L.short(base))
+    for k in ("append", "prepend", "remove", "clear"):
+        r1.require(F.hir(OS + "::" + k) is not None, (OS + "::" + k, "ANCHOR"), "mutator OrderedSet::%s not found" % k)
     for sym in ("iter_mut_unchecked", "head_mut", "tail_mut"):
         r1.exception(OS + "::" + sym, "reviewed", "hands out &mut T (key change possible) — documented escape, outside the property's operation alphabet")
     # constructions of OrderedSet(..)
     for (p, bi, s) in F.constructions(OS):
         base = p.split("::{closure#")[0]
         r1.site("OrderedSet(..) constructed in %s" % L.short(p))
-        ok = base in (OS + "::new", OS + "::with_capacity") or F.derived_trait_of(base) is not None
+        ok = base in (OS + "::new", OS + "::with_capacity") or F.derived_trait_of(base) is not None or bool(L.private_helper_of(F, base, {OS + "::new", OS + "::with_capacity"}))
         r1.require(ok, (base, "constructs-OrderedSet"), "OrderedSet is built from a raw Vec in %s (only new/with_capacity start from an empty Vec)" % L.short(base))
     r1.floor(10)
 
-    # ------------------------------------------------------------------ R2 guarded insertion and change()
-    r2 = R.rule("C19-R2", "T2+T3", "push/insert(0) only on the !contains edge, refusal mutates nothing; change(): first match index, tail filtered by the same predicate, data inserted at that index; remove(): first key match")
-    for fn, prim in ((OS + "::append", "push"), (OS + "::prepend", "insert")):
-        body = F.mir(fn)
-        h = F.hir(fn)
-        if not (r2.anchor(body, fn) and r2.anchor(h, fn)):
-            continue
-
-        def classify(root, b):
-            if root[0] == "call" and M.callee(root[1]).endswith("OrderedSet::contains"):
-                return "contains"
-            return None
-        atoms = M.switch_atoms(body, classify)
-        muts, _ = vec_mutations(body)
-        targets = [bi for _, bi, _ in muts]
-        vals = M.path_valuations(body, atoms, targets)
-        for nm, bi, t in muts:
-            vs = vals.get(bi, set())
-            ok = bool(vs) and all(("contains", False) in v for v in vs)
-            r2.site("%s: %s reached only with contains == false: %s" % (L.short(fn), nm, ok), t["sp"])
-            r2.require(ok, (fn, "unguarded-" + nm), "%s: the Vec is mutated on a path where `self.contains(&item)` was not false" % L.short(fn), t["sp"])
-        r2.require(len(muts) == 1 and muts[0][0] == prim, (fn, "primitive"), "%s must perform exactly one `%s`" % (L.short(fn), prim))
-        # contains is asked about the item being inserted; return value: false on refusal, true after insertion
-        env = H.Env(h)
-        for c in H.calls(h, OS + "::contains"):
-            oo = H.origins(H.call_args(c)[1], env)
-            r2.require(oo == {("param", "item")}, (fn, "contains-arg"), "contains is not asked about the item being inserted")
-        tree, infos = L.exit_infos(h)
-        for e in infos:
-            conds = [c[2] for c in e.conds if c[0] == "if" and H.strip(c[1]).get("k") == "mcall" and H.strip(c[1])["name"] == "contains"]
-            lit = H.literals(e.node)
-            r2.site("%s: returns %s when contains == %s" % (L.short(fn), lit, conds))
-            r2.require((conds == [True] and lit == [False]) or (conds == [False] and lit == [True]), (fn, "result-flag"), "%s: result flag %s under contains == %s" % (L.short(fn), lit, conds))
-        if prim == "insert":
-            for c in [n for n in H.walk(H.root(h)) if n.get("k") == "mcall" and n["name"] == "insert"]:
-                r2.require(H.literals(c["args"][0]) == [0], (fn, "insert-position"), "prepend does not insert at position 0")
-                r2.require(H.origins(c["args"][1], env) == {("param", "item")}, (fn, "insert-item"), "prepend does not insert the item")
-        else:
-            for c in [n for n in H.walk(H.root(h)) if n.get("k") == "mcall" and n["name"] == "push"]:
-                r2.require(H.origins(c["args"][0], env) == {("param", "item")}, (fn, "push-item"), "append does not push the item")
-    # contains: any(|other| other.key() == item.key())
-    h = F.hir(OS + "::contains")
-    if r2.anchor(h, OS + "::contains"):
-        env = H.Env(h)
-        ok = False
-        for c in H.walk(H.root(h)):
-            if c.get("k") == "mcall" and c["name"] == "any":
-                cl = H.strip(c["args"][0])
-                for cmp in H.comparisons(cl.get("body"), ("Eq",)):
-                    fns = [H.fn_name(H.strip(x)) or "" for x in (cmp["l"], cmp["r"])]
-                    oo = H.origins(H.call_args(H.strip(cmp["l"]))[0], env) | H.origins(H.call_args(H.strip(cmp["r"]))[0], env) if all(f.endswith("KeyComparable::key") for f in fns) else set()
-                    if any(o[0] == "closure_param" for o in oo) and ("param", "item") in oo:
-                        ok = True
-                ro = H.origins(c["recv"], env, extra=re.compile(r"iter$"))
-                r2.require(ro == {("param", "self", "0")}, (OS + "::contains", "scans-all"), "contains does not scan the whole inner Vec")
-        r2.site("contains = self.0.iter().any(|o| o.key() == item.key()): %s" % ok)
-        r2.require(ok, (OS + "::contains", "key-eq"), "contains is not `any(|other| other.key() == item.key())`")
-    # change()
-    fn = OS + "::change"
-    h = F.hir(fn)
-    if r2.anchor(h, fn):
-        env = H.Env(h)
-        idx = [n for n in H.walk(H.root(h)) if n.get("k") == "let" and any(b[0] == "index" for b in H.pat_bindings(n["pat"]))]
-        okpos = False
-        if idx:
-            init = H.strip(idx[0]["init"])
-            if init.get("k") == "mcall" and init["name"] == "position":
-                cl = H.strip(init["args"][0])
-                calls_f = [c for c in H.walk(cl.get("body")) if c.get("k") in ("call", "mcall") and (c.get("callee") or {}).get("res", {}).get("local") == "f" or (H.fn_name(c) or "").endswith("Fn::call")]
-                okpos = bool(calls_f) and H.origins(init["recv"], env, extra=re.compile(r"iter$")) == {("param", "self", "0")}
-        r2.site("change: index = self.0.iter().position(|item| f(item, &data)): %s" % okpos)
-        r2.require(okpos, (fn, "first-match"), "change(): the index is not the first position matching f")
-        iflet = H.find_first(h, lambda n: n.get("k") == "if" and H.strip(n["cond"]).get("k") == "letexpr")
-        if r2.require(iflet is not None, (fn, "if-let"), "change(): `if let Some(index) = index` not found"):
-            seq = []
-            for n in H.walk(iflet["then"]):
-                if n.get("k") == "mcall" and n["name"] in ("drain", "extend", "insert", "push", "remove", "swap_remove", "retain", "truncate", "splice", "append", "clear"):
-                    seq.append(n)
-            names = [n["name"] for n in seq]
-            r2.site("change: mutation sequence %s" % names, iflet["sp"])
-            r2.require(sorted(names) == ["drain", "extend", "insert"] and names.index("insert") == 2, (fn, "sequence"), "change(): expected drain → extend → insert(index, data), found %s" % names)
-            for n in seq:
-                if n["name"] == "drain":
-                    rng = H.strip(n["args"][0])
-                    okr = rng.get("k") == "struct" and H.variant_name(rng["res"]) == "RangeFrom" and H.local_name(rng["fields"][0]["e"]) == "index"
-                    r2.require(okr, (fn, "drain-range"), "change(): the drained range is not `index..`")
-                    # the filter keeps entries NOT matching f
-                    par = [m for m in H.walk(iflet["then"]) if m.get("k") == "mcall" and m["name"] == "filter"]
-                    okf = False
-                    for m in par:
-                        cl = H.strip(m["args"][0])
-                        inner, neg = H.negated(cl.get("body"))
-                        okf = okf or neg
-                    r2.require(okf, (fn, "filter-negated"), "change(): the drained tail is not filtered by `!f(item, &data)`")
-                if n["name"] == "insert":
-                    r2.require(H.local_name(n["args"][0]) == "index" and H.origins(n["args"][1], env) == {("param", "data")}, (fn, "insert-args"), "change(): data is not inserted at the first-match index")
-                if n["name"] == "extend":
-                    r2.require(H.local_name(n["args"][0]) == "keep", (fn, "extend-arg"), "change(): the kept tail is not re-appended")
-        for n, oc in H.exits(h):
-            n2 = H.strip(n)
-            r2.require(n2.get("k") == "mcall" and n2["name"] == "is_some" and H.local_name(n2["recv"]) == "index", (fn, "returns"), "change() does not return index.is_some()")
-    # replace / update predicates
-    for fn, want in ((OS + "::replace", {"current", "update"}), (OS + "::update", {"update"})):
-        h = F.hir(fn)
-        if not r2.anchor(h, fn):
-            continue
-        env = H.Env(h)
-        cs = H.calls(h, OS + "::change")
-        if r2.require(len(cs) == 1, (fn, "delegates"), "%s does not delegate to change()" % L.short(fn)):
-            a = H.call_args(cs[0])
-            r2.require(H.origins(a[1], env) == {("param", "update")}, (fn, "data-arg"), "%s does not pass `update` as the new element" % L.short(fn))
-            cl = H.strip(a[2])
-            keys = set()
-            for cmp in H.comparisons(cl.get("body"), ("Eq",)):
-                for side in (cmp["l"], cmp["r"]):
-                    sd = H.strip(side)
-                    if (H.fn_name(sd) or "").endswith("KeyComparable::key"):
-                        for o in H.origins(H.call_args(sd)[0], env):
-                            if o[0] == "param":
-                                keys.add(o[1])
-                            elif o[0] == "closure_param":
-                                keys.add("closure:%d" % o[2])
-            ds = H.disjuncts(cl.get("body"))
-            r2.site("%s predicate compares item.key() with %s keys (%d disjunct(s))" % (L.short(fn), sorted(k for k in keys if not k.startswith("closure")), len(ds)), cs[0]["sp"])
-            got = {k for k in keys if not k.startswith("closure")}
-            # in `update` the second closure parameter is the new element itself
-            ok = (fn.endswith("replace") and got == {"current"} and "closure:1" in keys and len(ds) == 2) or (fn.endswith("update") and "closure:1" in keys and "closure:0" in keys and len(ds) == 1 and not got)
-            r2.require(ok, (fn, "predicate"), "%s: unexpected key predicate (keys %s, %d disjuncts)" % (L.short(fn), sorted(keys), len(ds)))
-    # remove(): first entry whose key equals item.key(), removed with Vec::remove
-    fn = OS + "::remove"
-    h = F.hir(fn)
-    if r2.anchor(h, fn):
-        env = H.Env(h)
-        rm = [n for n in H.walk(H.root(h)) if n.get("k") == "mcall" and n["name"] in ("remove", "swap_remove")]
-        r2.require(len(rm) == 1 and (H.fn_name(rm[0]) or "").endswith("Vec::remove"), (fn, "primitive"), "remove() does not use the order-preserving Vec::remove")
-        finds = [n for n in H.walk(H.root(h)) if n.get("k") == "mcall" and n["name"] in ("find", "position")]
-        okk = False
-        for f_ in finds:
-            cl = H.strip(f_["args"][0])
-            for cmp in H.comparisons(cl.get("body"), ("Eq",)):
-                sides = [H.strip(cmp["l"]), H.strip(cmp["r"])]
-                if all((H.fn_name(s) or "").endswith("KeyComparable::key") for s in sides):
-                    oo = H.origins(H.call_args(sides[0])[0], env) | H.origins(H.call_args(sides[1])[0], env)
-                    if ("param", "item") in oo and any(o[0] == "closure_param" for o in oo):
-                        okk = True
-        r2.site("remove: first entry with entry.key() == item.key(), Vec::remove(idx): %s" % okk)
-        r2.require(okk, (fn, "key-match"), "remove() does not locate the entry by key equality with the argument")
-    r2.floor(12)
+    # ------------------------------------------------------------------ R2 the operations against the list model
+    N = 5 if tier == "thorough" else 4
+    r2 = R.rule("C19-R2", "T8", "append/prepend/update/replace/remove/clear, evaluated abstractly on sets of 0..%d generic elements, return the flag and leave the element sequence that a duplicate-free list model gives, in every key-equality world; uniqueness, order of the survivors and `refused ⇒ unchanged` hold on every path" % N)
+    n_ops = CM.check_ops(F, r2, N=N)
+    r2.note("%d (operation, set, world, path) cases decided; elements are opaque except for KeyComparable::key comparisons, which are left uninterpreted and enumerated" % n_ops)
+    r2.require(n_ops >= {4: 125, 5: 187}.get(N, 78), ("C19-R2", "coverage"), "only %d cases were decided (fewer than on the reviewed tree): the model check has gone (partly) inert" % n_ops)
+    r2.floor(6)
 
     # ------------------------------------------------------------------ R3 constructors
-    r3 = R.rule("C19-R3", "T2+T12", "TryFrom<Vec<T>> errors on the first refused append; FromIterator ignores refused appends (keeps first occurrences); serde try_from = Vec<T>")
+    r3 = R.rule("C19-R3", "T8+T12", "evaluated abstractly on 0..N inputs in every key-equality world: TryFrom<Vec<T>> gives Err(OrderedSetDuplicate) exactly when two inputs share a key and the inputs in order otherwise; FromIterator keeps the first occurrence of each key; serde try_from = Vec<T>")
     fn = "<" + OS + " as core::convert::TryFrom<alloc::vec::Vec>>::try_from"
-    if r3.anchor(F.hir(fn), fn):
-        # by abstract evaluation with append as an opaque call on a generic element of the input: a refused append is an error,
-        # every element goes through append, and the set returned is the one that was filled
-        tab = SR.Table(F, fn, opaque=r"OrderedSet::append$", rule=r3)
-        OTHER = SR.param("other")
-        rej = acc = False
-        for q in tab.paths:
-            aps = [e for e in q.calls(r"OrderedSet::append$") if isinstance(e.args[1], SY.Sym) and e.args[1].t[:1] == ("elem",) and e.args[1].t[1] == OTHER]
-            if q.val.get(("nonempty", OTHER)) is True:
-                if not r3.require(len(aps) == 1, (fn, "duplicate-rejected"), "TryFrom<Vec<T>> does not pass every element of the input through append"):
-                    continue
-                ok_ = q.succeeded(aps[0])
-                if SR.is_success(q.ret):
-                    acc = True
-                    r3.require(ok_ is True, (fn, "duplicate-rejected"), "TryFrom<Vec<T>> does not reject a Vec with duplicate keys on the first refused append")
-                    out = q.ret.fields[0] if isinstance(q.ret, SY.V) and q.ret.fields else None
-                    r3.require(out is not None and SY.term(out) == SY.term(aps[0].args[0]), (fn, "returns"), "TryFrom<Vec<T>> does not return the set it filled")
-                else:
-                    rej = rej or (ok_ is False and SR.err_name(q.ret) == "OrderedSetDuplicate")
-        r3.require(rej and acc or not tab.paths, (fn, "duplicate-rejected"), "TryFrom<Vec<T>> does not reject a Vec with duplicate keys on the first refused append")
-        r3.site("TryFrom<Vec>: every element → append; refused append → Err(OrderedSetDuplicate); returns the filled set")
+    n3 = CM.check_ctor(F, r3, fn, "try", N=N)
     cands = F.find(r"^<identity_core::common::ordered_set::OrderedSet as core::iter::traits::collect::FromIterator(<.*>)?>::from_iter$")
     fn = cands[0] if cands else "<OrderedSet as FromIterator>::from_iter"
-    if r3.anchor(F.hir(fn), fn):
-        tab = SR.Table(F, fn, opaque=r"OrderedSet::append$|size_hint$", rule=r3)
-        okf = False
-        for q in tab.paths:
-            aps = q.calls(r"OrderedSet::append$")
-            if aps:
-                okf = True
-                r3.require(SR.is_success(q.ret) and not isinstance(q.ret, SY.V) or SR.is_success(q.ret), (fn, "dedup-first"), "FromIterator fails on a refused append instead of keeping the first occurrence")
-                r3.require(q.succeeded(aps[0]) is None, (fn, "dedup-first"), "FromIterator branches on the result of append (it must simply keep the first occurrence of each key)")
-        r3.require(okf or not tab.paths, (fn, "dedup-first"), "FromIterator does not insert through append (which keeps the first occurrence of each key)")
-        r3.site("FromIterator: every item → append, result ignored")
+    n3 += CM.check_ctor(F, r3, fn, "collect", N=N)
+    r3.require(n3 >= {4: 48, 5: 152}.get(N, 18), ("C19-R3", "coverage"), "only %d constructor cases were decided: the model check has gone (partly) inert" % n3)
     a = F.ast_item(OS)
     if r3.anchor(a, OS + " (ast)"):
         attrs = " ".join(a["attrs"])
@@ -289,7 +120,7 @@ def run(F, R, tier):
     r3.floor(3)
 
     # ------------------------------------------------------------------ R4 OneOrSet / OneOrMany
-    r4 = R.rule("C19-R4", "T1+T4", "OneOrSetInner::Set is only built from a set known to have ≠ 1 (and ≥ 1) elements; TryFrom<Vec> rejects duplicates via OrderedSet::try_from; deserialisation rejects empty sets; OneOrMany normalisation")
+    r4 = R.rule("C19-R4", "T1+T8", "OneOrSetInner is private and its Set variant is built only by the modelled functions; OneOrSet::{try_from(Vec), new_set, try_from(OrderedSet), map, try_map, append} and OneOrMany::{from(Vec), from_iter}, evaluated abstractly on 0..3 generic elements in every key-equality world, agree with the model (empty → Err, duplicates → Err, one → One, else Set/Many in order); deserialisation rejects empty sets")
     a = F.adt(OOSI)
     if r4.anchor(a, OOSI):
         r4.require(a["vis"] != "pub" and not a["reachable"], (OOSI, "private"), "OneOrSetInner is reachable from outside the crate: empty Set variants could be built")
@@ -297,59 +128,20 @@ def run(F, R, tier):
                      OOS + "::try_map": "as map", OOS + "::append": "temporary empty Set replaced by a 2-element set in the same arm"}
     for (p, bi, s) in F.constructions(OOSI, "Set"):
         base = p.split("::{closure#")[0]
-        r4.site("OneOrSetInner::Set constructed in %s" % L.short(p))
-        if F.derived_trait_of(base):
+        r4.note("OneOrSetInner::Set constructed in %s" % L.short(p))     # not a counted site: the number of construction sites is not part of the rule
+        if F.derived_trait_of(base) or base in allowed_sites:
             continue
-        r4.require(base in allowed_sites, (base, "constructs-Set"), "OneOrSetInner::Set is constructed in %s, which is not a reviewed site" % L.short(base))
-    # new_set table
-    fn = OOS + "::new_set"
-    h = F.hir(fn)
-    if r4.anchor(h, fn):
-        env = H.Env(h)
-        tree, infos = L.exit_infos(h)
-        gs = L.block_guards(H.root(h))
-        empty_err = any(H.strip(c).get("k") == "mcall" and H.strip(c)["name"] == "is_empty" and oc == "Err(OneOrSetEmpty)" for c, oc, _ in gs)
-        r4.require(empty_err, (fn, "empty"), "new_set does not reject an empty set with OneOrSetEmpty")
-        for e in infos:
-            if e.outcome != "Ok":
-                continue
-            conds = []
-            for c in e.conds:
-                if c[0] == "if":
-                    cc = H.strip(c[1])
-                    if cc.get("k") == "binary" and cc["op"] == "Eq" and H.literals(cc) == [1]:
-                        conds.append(c[2])
-            _, inner = H.ctor_class(e.node)
-            built = "One" if any(f.endswith("new_one") for f in H.called_fns(inner)) else ("Set" if any(H.variant_name(x.get("ctor", {})) == "Set" for x in H.walk(inner) if x.get("k") == "call") else "?")
-            r4.site("new_set: len()==1 is %s → %s" % (conds, built), e.node.get("sp"))
-            r4.require((conds == [True] and built == "One") or (conds == [False] and built == "Set"), (fn, "normalisation"), "new_set builds %s when len()==1 is %s" % (built, conds))
-    for fn in (OOS + "::map", OOS + "::try_map"):
-        h = F.hir(fn)
-        if r4.anchor(h, fn):
-            ok = False
-            for n in H.walk(H.root(h)):
-                if n.get("k") == "if":
-                    cc = H.strip(n["cond"])
-                    if cc.get("k") == "binary" and cc["op"] == "Eq" and H.literals(cc) == [1]:
-                        t1 = H.ctor_class(n["then"])[0]
-                        t2 = H.ctor_class(n["else"])[0] if n.get("else") else None
-                        ok = (t1, t2) == ("One", "Set")
-            r4.site("%s: len()==1 → One else Set: %s" % (L.short(fn), ok))
-            r4.require(ok, (fn, "normalisation"), "%s does not re-normalise a mapped set of one element to One" % L.short(fn))
-    # TryFrom<Vec<T>> for OneOrSet goes through OrderedSet::try_from (duplicates rejected) then new_set
-    fn = "<" + OOS + " as core::convert::TryFrom<alloc::vec::Vec>>::try_from"
-    h = F.hir(fn)
-    if r4.anchor(h, fn):
-        env = H.Env(h)
-        L.require_tried_before_success(r4, F, fn, [("OrderedSet::try_from(other)", re.compile(r"OrderedSet as core::convert::TryFrom<alloc::vec::Vec>>::try_from$|TryFrom::try_from$"))], delegate=None)
-        for n, oc in H.exits(h):
-            n2 = H.strip(n)
-            r4.require(n2.get("k") == "call" and (H.fn_name(n2) or "") == OOS + "::new_set", (fn, "delegates-new_set"), "TryFrom<Vec<T>> for OneOrSet does not finish through new_set")
-            if n2.get("k") == "call":
-                oo = H.origins(n2["args"][0], env)
-                r4.require(bool(oo) and all(o[0] == "call" and "try_from" in o[1] for o in oo), (fn, "set-source"), "the set given to new_set is not the duplicate-checked OrderedSet::try_from(other)?: %s" % sorted(map(str, oo)))
-        for c in H.calls(h, re.compile(r"try_from$")):
-            r4.require("identity_core::common::ordered_set::OrderedSet" in (c.get("targs") or []) or "OrderedSet" in (H.fn_name(c) or ""), (fn, "try_from-type"), "the Vec is not converted with OrderedSet::try_from")
+        serves = L.private_helper_of(F, base, set(allowed_sites))
+        if serves:
+            r4.exception(base, "checked", "private helper reachable only from %s, whose results are decided by the model check below" % sorted(L.short(x) for x in serves))
+            continue
+        r4.fail((base, "constructs-Set"), "OneOrSetInner::Set is constructed in %s, which is not a reviewed site" % L.short(base))
+    # the constructors and operations, evaluated abstractly on 0..3 generic elements in every key-equality world, against the model:
+    # empty → Err(OneOrSetEmpty); duplicate keys in a Vec → Err(OrderedSetDuplicate); exactly one element → One; otherwise Set in
+    # input order; map/try_map re-normalise after the mapped keys collapse; append refuses a present key
+    n4 = CM.check_oneorset(F, r4, N=3)
+    r4.note("%d (function, input, world, path) cases decided" % n4)
+    r4.require(n4 >= 56, ("C19-R4", "coverage"), "only %d OneOrSet/OneOrMany cases were decided: the model check has gone (partly) inert" % n4)
     # deserialize_non_empty_set wiring
     ai = F.ast_item(OOSI)
     if r4.anchor(ai, OOSI + " (ast)"):
@@ -361,22 +153,12 @@ def run(F, R, tier):
         r4.site("OneOrSetInner::Set deserialize_with deserialize_non_empty_set: %s" % ok, ai["span"])
         r4.require(ok, (OOSI, "deserialize_with"), "the Set variant is not deserialised with deserialize_non_empty_set")
     fn = "identity_core::common::one_or_set::deserialize_non_empty_set"
-    h = F.hir(fn)
-    if r4.anchor(h, fn):
-        gs = L.block_guards(H.root(h))
-        ok = any(H.strip(c).get("k") == "mcall" and H.strip(c)["name"] == "is_empty" and oc.startswith("Err(") for c, oc, _ in gs)
-        r4.require(ok, (fn, "empty"), "deserialize_non_empty_set does not reject an empty set")
-        r4.site("deserialize_non_empty_set: is_empty → Err")
-    # OneOrMany: From<Vec> normalisation
-    fn = "<" + OOM + " as core::convert::From<alloc::vec::Vec>>::from"
-    h = F.hir(fn)
-    if r4.anchor(h, fn):
-        ok = False
-        for n in H.walk(H.root(h)):
-            if n.get("k") == "if":
-                cc = H.strip(n["cond"])
-                if cc.get("k") == "binary" and cc["op"] == "Eq" and H.literals(cc) == [1]:
-                    ok = (H.ctor_class(n["then"])[0], H.ctor_class(n["else"])[0] if n.get("else") else None) == ("One", "Many")
-        r4.site("OneOrMany::from(Vec): len()==1 → One else Many: %s" % ok)
-        r4.require(ok, (fn, "normalisation"), "From<Vec<T>> for OneOrMany does not normalise a singleton to One")
-    r4.floor(14)
+    if r4.anchor(F.hir(fn), fn):
+        tab = SR.Table(F, fn, opaque=r"Deserialize::deserialize$|::deserialize$", rule=r4)
+        okd = bool(tab.ok())
+        for q in tab.ok():
+            ne = [c for (a, c, _, _) in q.decisions if a[0] == "nonempty" and "deserialize" in SY.fmt(a[1])]
+            okd = okd and ne == [True]
+        r4.require(okd, (fn, "empty"), "deserialize_non_empty_set does not reject an empty set")
+        r4.site("deserialize_non_empty_set: Ok only for a non-empty deserialised set: %s" % okd)
+    r4.floor(10)
